@@ -38,6 +38,18 @@ type Ctx struct {
 	Notes     []string          // advisory, never affects the verdict
 	Rules     map[string]string // rule id -> sentence (for evidence.explanation)
 	ruleOrder []string
+	// robust: rules decided over the call graph (lock brackets, who-may-call, reachability): they follow
+	// unknown helpers by construction, so opacity does not weaken their reports
+	robust map[string]bool
+}
+
+// Robust marks a rule as interprocedural: its violations are reported even in functions that are opaque
+// to the shape rules.
+func (c *Ctx) Robust(rule string) {
+	if c.robust == nil {
+		c.robust = map[string]bool{}
+	}
+	c.robust[rule] = true
 }
 
 func NewCtx(prop string, w *World) *Ctx {
@@ -72,7 +84,7 @@ func (c *Ctx) OK(rule, key string, pos token.Pos, examined int, format string, a
 func (c *Ctx) Fail(rule, key string, pos token.Pos, format string, args ...any) {
 	// a function that uses constructs the rules have never seen (a new type that carries its data, a helper
 	// that could not be made transparent, a changed signature) cannot be judged by shape: undecided, not violated
-	if why := c.W.opaqueKey(key); why != "" {
+	if why := c.W.opaqueKey(key); why != "" && !c.robust[rule] {
 		c.add(rule, key, Undecided, token.NoPos, 0, "not decided, %s — the rule would otherwise report: %s", why, fmt.Sprintf(format, args...))
 		return
 	}
